@@ -558,6 +558,11 @@ func runC14(c *Ctx) {
 	}
 	defer os.RemoveAll(tmp)
 
+	if os.Getenv("VERIF_C14_ONLY") == "cli" { // development aid: entry points only
+		c.R.Cases(2, 2)
+		c14entryPoints(c, items, tmp)
+		return
+	}
 	var jobs []c14job
 	batch := 60 // positions per child
 	for _, it := range items {
